@@ -48,7 +48,7 @@ theorem nnB_init {start stop fS fE eps : α} {s : St α}
   obtain ⟨hle, hlt, _, hlo, hhi, he, _, hc, _⟩ := init_some h
   have hd : s.d = s.a := by
     unfold init at h
-    simp only [hle, hlt, not_true_eq_false, if_false, Option.some.injEq] at h
+    simp only [hle, (oppSign_iff _ _).mpr hlt, not_true_eq_false, if_false, Option.some.injEq] at h
     rw [← h]
   have haL : start ≤ s.a := by rw [← hlo]; exact min_le_left _ _
   have haH : s.a ≤ stop := by rw [← hhi]; exact le_max_left _ _
@@ -65,7 +65,7 @@ theorem interp_needs_small_b0 {H e : α} (s : St α) (h : NnB H e s) (he : 0 < e
   have hc0 := h.c0
   have hd0 := h.d0
   have hu' : ¬ useBisect s dx = true := by rw [hu]; simp
-  simp only [useBisect, absv_eq_abs, hb, Bool.false_and, Bool.or_false, Bool.not_false,
+  simp only [useBisect_eq, useBisect5, absv_eq_abs, hb, Bool.false_and, Bool.or_false, Bool.not_false,
     Bool.true_and, Bool.or_eq_true, decide_eq_true_eq, not_or, h.epsEq] at hu'
   obtain ⟨_, h5⟩ := hu'
   have h5 : |2 * e * s.b| ≤ |s.c - s.d| := not_lt.mp h5
@@ -81,7 +81,7 @@ theorem bisect_of_c_eq_d (s : St α) (dx : α) (hb : s.bisection = false) (hcd :
     useBisect s dx = true := by
   have : absv dx ≥ absv (s.c - s.d) / 2 := by
     rw [absv_eq_abs, absv_eq_abs, hcd, sub_self, abs_zero, zero_div]; exact abs_nonneg dx
-  simp [useBisect, hb, this]
+  simp [useBisect_eq, useBisect5, hb, this]
 
 /-- not converged and `b < tol`: `b` is the lower end of the bracket, so the next `b` is `≥ b` -/
 theorem next_b_ge {H e : α} (s : St α) (y tol : α) (h : NnB H e s)
